@@ -52,7 +52,8 @@ def generate(rng, tier):
                         {"stream": "token-seq" if i % 3 == 0 else "random"}))
     # literal terminals (Word/Bool/Nil use MatchWord, Integer a look-ahead, String a custom reader): same shift relation
     for i in range(n // 2):
-        rules, root = G.rand_lit_grammar(rng)
+        # every third: the JSON-shaped / arithmetic-shaped workload grammars in miniature
+        rules, root = G.rand_lit_grammar(rng) if i % 3 else (G.json_like(rng) if i % 2 else G.arith_like(rng))
         for _ in range(2):
             out.append((G.case_text(rules, root, G.rand_lit_input_for(rng, rules, root), offset=rng.choice([2, 3, 7, 17, 60]), flags=0),
                         {"stream": "literals"}))
